@@ -308,5 +308,58 @@ def r11_7(ctx):
     return r
 
 
+def _canon(t):
+    """role-independent form of a term: the handshake context is `ctx` whether it is a parameter or captured,
+    and the ECDH shared secret is one opaque value"""
+    if not isinstance(t, tuple) or not t:
+        return t
+    if t[0] == "call" and isinstance(t[1], str) and t[1].endswith("::diffie_hellman"):
+        return ("DH",)
+    if t == ("field", ("env",), "ctx") or t == ("arg", "ctx"):
+        return ("ctx",)
+    return tuple(_canon(x) if isinstance(x, tuple) else x for x in t)
+
+
+def r11_8(ctx):
+    """'both sides agree on keys': client (handle_server_hello_done) and server (handle_client_key_exchange)
+    derive the master secret and the key block in two separate copies of the same code. Sibling agreement: both
+    copies feed the same PRF calls (label, seed, length), build the seed as client_random || server_random, and
+    expand keys with (master, client_random, server_random) in that order."""
+    r = RuleResult("R11.8", "K6", "client and server derive master secret and key block by identical formulas")
+    fns = [D + "handle_client_key_exchange", D + "handle_server_hello_done::{closure#0}"]
+    sig = {}
+    for fn in fns:
+        b = ctx.body(fn)
+        r.scope.append(fn)
+        prfs = set()
+        seeds = []
+        for bi, t, p in b.calls():
+            if not p:
+                continue
+            if p.endswith("dtls::prf_sha256"):
+                args = [_canon(core.expand_vars(b, b.term_operand(a), 1)[0]) for a in t["a"]]
+                prfs.add(mir.show(("call", "prf", tuple(args)), 2000))
+            if p.endswith("::extend_from_slice") and t["a"] and b.term_operand(t["a"][0])[:2] == ("var", "seed"):
+                seeds.append((bi, mir.show(_canon(b.term_operand(t["a"][1])), 200)))
+        ek = [tuple(mir.show(_canon(b.term_operand(a)), 300) for a in t["a"]) for bi, t, p in b.calls() if p and p.endswith("dtls::expand_keys")]
+        sig[fn] = (sorted(prfs), [x for _, x in sorted(seeds)], ek)
+    a, c = sig[fns[0]], sig[fns[1]]
+    r.need("PRF calls per role", min(len(a[0]), len(c[0])), 2)
+    for what, x, y in (("master-secret PRF calls (label, seed, length)", a[0], c[0]),
+                       ("seed construction order", a[1], c[1]),
+                       ("expand_keys arguments", a[2], c[2])):
+        if x == y and x:
+            r.ok({"agree on": what, "value": [v[:160] for v in (x if isinstance(x, list) else [x])][:3]})
+        else:
+            r.violate(fns[1], "derive:%s" % what.split()[0], ctx.body(fns[1]).where(0),
+                      "client and server disagree on %s: server %s / client %s" % (what, str(x)[:300], str(y)[:300]))
+    want_seed = ["(ctx().client_random as Some).0", "(ctx().server_random as Some).0"]
+    if a[1] == want_seed:
+        r.ok({"seed": "client_random || server_random"})
+    else:
+        r.violate(fns[0], "seed:order", ctx.body(fns[0]).where(0), "master secret seed is %s, RFC 5246 8.1 requires ClientHello.random || ServerHello.random" % a[1])
+    return r
+
+
 def run(ctx):
-    return [r11_1(ctx), r11_2(ctx), r11_3(ctx), r11_4(ctx), r11_5(ctx), r11_6(ctx), r11_7(ctx)]
+    return [r11_1(ctx), r11_2(ctx), r11_3(ctx), r11_4(ctx), r11_5(ctx), r11_6(ctx), r11_7(ctx), r11_8(ctx)]
